@@ -57,7 +57,49 @@ def seqs_of(path):
     return {s for _, s in drivers.read_fasta(path)} if os.path.exists(path) else None
 
 
+def hash_case(spec):
+    """Python hash seed on richer inputs: a case of the callVariant engine (fusions with adjacent variants at the breakpoint,
+    several units per transcript, circRNA, alternative splicing ...) is run in-process (PYTHONHASHSEED=0) and through the CLI
+    under other hash seeds; the peptide SETS must be equal."""
+    rng = random.Random(spec['seed'])
+    case = cv.build_case({'seed': spec['seed'], 'stratum': spec['stratum'], 'light': True,
+                          'cfg': {'exception': None, 'min_nodes_to_collapse': 30, 'naa_to_collapse': 5}})
+    if case is None:
+        return {'skipped': True}
+    wd = drivers.case_dir('c06h-')
+    viol = []
+    counters = {'cases': 1, 'hash_cases': 1}
+    try:
+        paths = cv.write_case(case, wd)
+        try:
+            fa, _ = cvmon.execute(case, wd, paths, out='base.fasta')
+        except Exception:
+            return {'nontrivial': False, 'counters': {'cases': 1, 'base_run_crashed': 1}}
+        base = {s for _, s in fa}
+        for hs in spec['hashseeds']:
+            out = f'{wd}/h{hs}.fasta'
+            rc, so, se = common.run_cli(cli_args(wd, paths, out), timeout=600, hashseed=None if hs == 'random' else hs)
+            if rc is None:
+                continue
+            counters['hashseed_runs'] = counters.get('hashseed_runs', 0) + 1
+            got = seqs_of(out)
+            if rc != 0 or got is None:
+                if 'Failed to finish transcript' in se or 'Downstream node becomes empty' in se:
+                    continue       # wall-clock limit / recorded crash mechanism: decided by C01
+                viol.append({'kind': 'hashseed-run-failed', 'msg': f'{spec["stratum"]} PYTHONHASHSEED={hs}: exit {rc}: {se[-300:]}'})
+            elif got != base:
+                viol.append({'kind': 'hashseed-changes-output',
+                             'msg': f'{spec["stratum"]} PYTHONHASHSEED={hs}: {len(got)} peptides vs {len(base)} with seed 0; '
+                                    f'missing {sorted(base - got)[:4]} extra {sorted(got - base)[:4]}'})
+        return {'nontrivial': bool(base), 'feature': ('hash', spec['stratum'], tuple(spec['hashseeds'])), 'violations': viol,
+                'counters': counters, 'sample': {'stratum': spec['stratum'], 'hashseeds': spec['hashseeds'], 'base_peptides': len(base)}}
+    finally:
+        drivers.rm(wd)
+
+
 def run_case(spec):
+    if spec.get('kind') == 'hash':
+        return hash_case(spec)
     from moPepGen.cli.index_gvf import index_gvf
     rng = random.Random(spec['seed'])
     n_tx = spec['n_tx']
@@ -200,12 +242,20 @@ def check(rep, tier, seed, specs=None, n_override=None):
                 n = rng.randint(2, 9)
                 specs.append({'n_tx': n, 'skip': rng.sample(range(n), rng.randint(0, min(3, n - 1))), 'layouts': 4, 'index_ref': j % 2 == 0,
                               'hashseeds': [1, 2, 'random'] if j % 5 == 0 else [], 'seed': common.hash64('c06-l', seed, j)})
+    if specs is not None and not any(sp.get('kind') == 'hash' for sp in specs) and not n_override and len(specs) > 1:
+        hstrata = ['fusion_adj', 'fusion_adj', 'units', 'fusion_var', 'circ_var', 'as', 'multi', 'small']
+        nh = 64 if quick else 1600
+        for i in range(nh):
+            specs.append({'kind': 'hash', 'stratum': hstrata[i % len(hstrata)],
+                          'hashseeds': [[1, 2], [3, 'random'], [4, 5], [7, 9]][i % 4],
+                          'seed': common.hash64('c06h', 'fixed' if i < nh // 2 else seed, i)})
     results, lost = common.shard_run('c06', specs, timeout_s=1800 if quick else 8 * 3600)
     rep.rule = ('inputs with 2-9 transcripts in annotation order of which a chosen subset is skipped by the dispatcher (only an intronic record) at '
                 'first / middle / last position; base = --threads 1, one file, raw reference, PYTHONHASHSEED=0 (in-process). Compared against it: '
                 'CLI runs with --threads 2/3/4/5/8 (ppft worker processes), CLI runs with PYTHONHASHSEED 1/2/random, 2-4 GVF files in interleaved / '
                 'per-transcript / shuffled order with duplicated records and with or without indexGVF .idx files, and the reference given as a '
-                'generateIndex directory. non-trivial = base output non-empty; distinct = (n_tx, n_skipped, thread counts, last/first skipped, ...).')
+                'generateIndex directory. Hash seeds are additionally varied on cases of the callVariant engine (fusions with adjacent variants at '
+                'the breakpoint, several units per transcript, circRNA, alternative splicing). non-trivial = base output non-empty; distinct = (n_tx, n_skipped, thread counts, last/first skipped, ...).')
     rep.absorb(results, lost)
     for k in ('thread_runs', 'layout_runs', 'index_ref_runs', 'hashseed_runs'):
         if not rep.counters.get(k):
